@@ -224,6 +224,9 @@ def run(ctx):
     ctx.guarded("C08.restore", r_restore)
     ctx.guarded("C08.order", r_order)
     ctx.guarded("C08.aliasincr", r_aliasincr)
+    # a group spelled as a base definition plus //= alternatives accepts what any of its definitions accepts
+    import c14
+    ctx.guarded("C08.groupincr", lambda c: c14.r_groupchoice(c, "C08.groupincr"))
     ctx.guarded("C08.ctrlrestore.json", lambda c: cv.ctrlrestore_rule(c, "C08j", "json"))
     ctx.guarded("C08.ctrlrestore.cbor", lambda c: cv.ctrlrestore_rule(c, "C08c", "cbor"))
     ctx.guarded("C08.argctx.json", lambda c: cv.argctx_rule(c, "C08j", "json"))
